@@ -746,6 +746,133 @@ def rule_P10(ctx) -> None:
                     "message M { map<int32, google.protobuf.UInt32Value> m = 1; }  M().parse(b'\\x0a\\x06\\x08\\x01\\x12\\x02\\x08\\x05')")
 
 
+def _comment_pipeline(models):
+    """the tail of get_comment that turns the comment's lines into the docstring literal, as a function of (lines, pad, indent):
+    the statements of the innermost block that returns the triple-quoted text, from the first one that escapes anything"""
+    fn = models.func("get_comment")
+    blocks = []
+
+    def visit(body):
+        for st in body:
+            for attr in ("body", "orelse", "finalbody"):
+                sub = getattr(st, attr, None)
+                if isinstance(sub, list) and sub and isinstance(sub[0], ast.stmt):
+                    visit(sub)
+        def has_ret(st):
+            return any(isinstance(r, ast.Return) and r.value is not None and '\"\"\"' in ast.unparse(r.value) for r in ast.walk(st))
+        if any(has_ret(st) and not any(isinstance(x, (ast.For, ast.While)) for x in ast.walk(st)) for st in body):
+            blocks.append(body)
+
+    visit(fn.body)
+    blocks = [b for b in blocks if any(".replace(" in ast.unparse(st) or "endswith(" in ast.unparse(st) for st in b if not any(isinstance(x, (ast.For, ast.While)) for x in ast.walk(st)))]
+    if not blocks:
+        return None
+    body = blocks[0]
+    start = next((i for i, st in enumerate(body) if ".replace(" in ast.unparse(st) or "endswith(" in ast.unparse(st)), None)
+    if start is None:
+        return None
+    tail = body[start:]
+    loaded, stored = [], set()
+
+    def loads(e):
+        for n in ast.walk(e):
+            if isinstance(n, ast.Name) and isinstance(n.ctx, ast.Load) and n.id not in stored and n.id not in loaded:
+                loaded.append(n.id)
+
+    def stores(e):
+        for n in ast.walk(e):
+            if isinstance(n, ast.Name) and isinstance(n.ctx, ast.Store):
+                stored.add(n.id)
+
+    def scan(st):
+        # names in evaluation order: the value of an assignment before its targets, a test before its branches
+        if isinstance(st, (ast.Assign, ast.AnnAssign, ast.AugAssign)):
+            if st.value is not None:
+                loads(st.value)
+            for t in (st.targets if isinstance(st, ast.Assign) else [st.target]):
+                loads(t)        # subscripted / attribute targets read their base
+                stores(t)
+        elif isinstance(st, ast.If):
+            loads(st.test)
+            for b in st.body + st.orelse:
+                scan(b)
+        else:
+            loads(st)
+            stores(st)
+
+    for st in tail:
+        scan(st)
+    comp_locals = {g.target.id for st in tail for c in ast.walk(st) if isinstance(c, (ast.ListComp, ast.GeneratorExp, ast.SetComp)) for g in c.generators if isinstance(g.target, ast.Name)}
+    import builtins as _b
+    free = [x for x in loaded if x not in comp_locals and not hasattr(_b, x) and x not in models.consts and not models.has(x)]
+    params = [a.arg for a in fn.args.args]
+    indent = params[2] if len(params) > 2 else "indent"
+    seq = [x for x in free if x not in (indent, "pad")]
+    if len(seq) != 1:
+        return None
+    f = ast.parse(f"def _vt_comment_pipeline({seq[0]}, pad, {indent}):\n    pass").body[0]
+    f.body = tail
+    ast.fix_missing_locations(f)
+    return f, seq[0], indent
+
+
+def comment_literal_at(models, lines, indent: int = 4):
+    """the docstring source text get_comment builds for a comment with these lines, by constant propagation through the escaping
+    tail of the function; None when it does not fold"""
+    from ..absint import Interp
+    from ..sym import N
+    got = _comment_pipeline(models)
+    if got is None:
+        return None
+    f, seq, ind = got
+    try:
+        paths = [p for p in Interp(models, local_tables=True, fork_ifexp=True).run(f, {seq: ("c", tuple(lines)), "pad": ("c", " " * indent), ind: ("c", indent)}) if p.outcome == "return"]
+    except AnalysisError:
+        return None
+    if len(paths) != 1 or paths[0].value is None or paths[0].value[0] != "c" or not isinstance(paths[0].value[1], str):
+        return None
+    return paths[0].value[1]
+
+
+P11_PROBES = [["plain text"], ['say "hi" twice'], ['ends with a quote"'], ['ends with three quotes\"\"\"'.replace("\\", "")], ['"""'], ['four""""'], ["ends with a backslash\\"], ['backslash then quote\\"'],
+              ['two backslashes then quote\\\\"'], ['"'], ['""'], ['first"""', 'last"'], ['first', 'last"""'], ["x" * 80 + '"""']]
+
+
+def rule_P11b(ctx, rule: str = "P11") -> None:
+    """the docstring get_comment builds, evaluated at distinguished comments (quotes and backslashes at the end, runs of three and
+    four quotes, one line and several): the text is a complete Python string literal - nothing of the comment closes it early or
+    escapes its closing quotes - and the string it denotes contains the comment's text"""
+    models = ctx.repo.mod(M_MODELS)
+    fn = models.func("get_comment")
+    name = "get_comment:literal-at-distinguished-comments"
+    bad = None
+    n = 0
+    for lines in P11_PROBES:
+        src = comment_literal_at(models, lines)
+        ctx.count(1)
+        if src is None:
+            ctx.notes.append(f"P11b: get_comment's escaping tail does not fold for {lines!r}; the structural clauses of P11 stand alone")
+            return
+        n += 1
+        try:
+            val = ast.literal_eval(src.strip())
+        except (SyntaxError, ValueError) as e:
+            bad = bad or (lines, src, f"is not a complete string literal ({type(e).__name__}: {e.msg if isinstance(e, SyntaxError) else e})")
+            continue
+        if not isinstance(val, str):
+            bad = bad or (lines, src, f"denotes {type(val).__name__}, not a string")
+            continue
+        body = [l.strip() for l in val.strip().split("\n")]
+        if body != [l.strip() for l in lines]:
+            bad = bad or (lines, src, f"denotes {val!r}, not the comment's text")
+    if bad:
+        lines, src, why = bad
+        ctx.refuted(rule, name, repr(lines)[:60], models.loc(fn), f"for a comment with the line(s) {lines!r} get_comment builds {src!r}, which {why}: the generated module does not compile "
+                    "(or carries another docstring)", f"// {lines[-1]}   above a message, field or enum value")
+    else:
+        ctx.proved(rule, name, models.loc(fn), f"{n} distinguished comments: each literal parses and denotes the comment's text")
+
+
 def rule_P11(ctx) -> None:
     """proto comments are user text: before it is placed between triple quotes, backslashes are doubled and quotes
     that could close the literal (a \"\"\" run, a quote at the very end) are neutralised"""
@@ -878,7 +1005,7 @@ def _x1b(ctx) -> None:
 
 
 def run(ctx) -> None:
-    for name, fn in (("X3", _x3), ("X10", _x10), ("X1", _x1b), ("P14", rule_P14), ("P1", template.rule_P1), ("P2", rule_P2), ("P3", rule_P3), ("P4", rule_P4), ("P5", rule_P5), ("P6", rule_P6), ("P7", rule_P7), ("P8", rule_P8), ("Y2iii", template.rule_Y2iii), ("P9", rule_P9), ("P10", rule_P10), ("P11", rule_P11), ("P12", rule_P12), ("P13", rule_P13)):
+    for name, fn in (("X3", _x3), ("X10", _x10), ("X1", _x1b), ("P14", rule_P14), ("P1", template.rule_P1), ("P2", rule_P2), ("P3", rule_P3), ("P4", rule_P4), ("P5", rule_P5), ("P6", rule_P6), ("P7", rule_P7), ("P8", rule_P8), ("Y2iii", template.rule_Y2iii), ("P9", rule_P9), ("P10", rule_P10), ("P11", rule_P11), ("P11b", rule_P11b), ("P12", rule_P12), ("P13", rule_P13)):
         ctx.rules_run.append(name)
         try:
             fn(ctx)
